@@ -271,6 +271,7 @@ fn check_case(run: &Run, case: &Case, origin: &'static str, case_seed: Option<u6
                 let expect = |layer: &Layer| match layer {
                     Layer::Unassigned => -1.,
                     Layer::Tours => is_new as i32 as f64,
+                    Layer::MaxTours => -(is_new as i32 as f64),
                     Layer::Distance => d_dist,
                     Layer::Cost => (if is_new { veh.fixed } else { 0. }) + veh.per_distance * d_dist + veh.per_time * d_dur,
                     Layer::Value => -job_spec.value,
@@ -361,8 +362,8 @@ struct GridDesc {
 
 fn grid_descs() -> Vec<GridDesc> {
     let mut descs = Vec::new();
-    for transport in [Layer::Distance, Layer::Cost] {
-        for layers in permutations(&[Layer::Unassigned, Layer::Tours, transport, Layer::Value]) {
+    for (transport, tours) in [(Layer::Distance, Layer::Tours), (Layer::Cost, Layer::Tours), (Layer::Distance, Layer::MaxTours), (Layer::Cost, Layer::MaxTours)] {
+        for layers in permutations(&[Layer::Unassigned, tours, transport, Layer::Value]) {
             for closed in [true, false] {
                 for n in 1..=2usize {
                     for locs in product(3, n) {
@@ -411,7 +412,8 @@ fn build_grid_case(desc: &GridDesc) -> Case {
 fn random_case(case_seed: u64) -> Option<Case> {
     let mut rng = Rng::new(case_seed);
     let mut layers = vec![*rng.pick(&[Layer::Distance, Layer::Cost])];
-    for l in [Layer::Unassigned, Layer::Tours, Layer::Value] {
+    let tours = if rng.chance(0.3) { Layer::MaxTours } else { Layer::Tours };
+    for l in [Layer::Unassigned, tours, Layer::Value] {
         if rng.chance(0.7) {
             layers.push(l);
         }
@@ -479,7 +481,7 @@ fn main() {
     run.floor("layer verdicts", run.evaluations(), 50_000);
     run.floor("grid family cases completed", grid_done, descs.len() as u64);
     run.floor("random cases", run.observed("origin", "random"), 1_000);
-    for layer in [Layer::Unassigned, Layer::Tours, Layer::Distance, Layer::Cost, Layer::Value] {
+    for layer in [Layer::Unassigned, Layer::Tours, Layer::MaxTours, Layer::Distance, Layer::Cost, Layer::Value] {
         for target in ["existing-tour", "new-tour"] {
             for job in ["single", "multi"] {
                 let key = format!("{}/{target}/{job}", layer.name());
